@@ -22,9 +22,13 @@ through the other static type. The element stores of one `range` loop are commit
 the loop; this is indistinguishable from storing one by one unless a container is reachable from its
 own elements, and on such cyclic data neither the Go code nor the model terminates (fuel runs out).
 
-The options a recursive call receives are read from the source (`Gen/Conv.lean`): today
-`GenAlter` calls itself on slice elements WITHOUT its options (`GenAlter(m)`), so below a slice the
-package defaults apply (known finding C18-genalter-array-options). -/
+Regression tripwires over the source lines the model depends on are read from the source
+(`Gen/Conv.lean`, written by tools/extract/conv.go): which recursive calls hand `opt` on (as first
+examined, `GenAlter` called itself on slice elements WITHOUT its options, so below a slice the package
+defaults applied — fixed in the repository since; the model follows whatever the source says), whether
+there is a `json.Number` clause, `alt.DefaultOptions` after `init`, the writers' Simplifier clause, and
+for every container arm whether it builds a container or writes into its argument
+(`Kind.sourceArms`, `Kind.armAgrees`; `C18.inPlace_matches_source`). -/
 namespace OjgVerif.Conv
 open OjgVerif.Gen.Conv
 
@@ -54,6 +58,30 @@ def Kind.dst : Kind → Form
 def Kind.inPlace : Kind → Bool
   | .genAlter | .nodeAlter | .altAlter => true
   | _ => false
+
+/-- the Go arms a kind stands for, as (function, arm) keys of `Gen.Conv.containerArms` -/
+def Kind.sourceArms : Kind → List (String × String)
+  | .generify => [("Generify", "[]any"), ("Generify", "map[string]any")]
+  | .genAlter => [("GenAlter", "[]any"), ("GenAlter", "map[string]any")]
+  | .decompose => [("decompose", "[]any"), ("decompose", "map[string]any")]
+  | .altAlter => [("alter", "[]any"), ("alter", "map[string]any")]
+  | .simplify => [("Array.Simplify", "Array"), ("Object.Simplify", "Object")]
+  | .nodeAlter => [("Array.Alter", "Array"), ("Object.Alter", "Object")]
+  | .genDup => [("Array.Dup", "Array"), ("Object.Dup", "Object")]
+
+/-- what the source says about one arm: (builds a container, writes into its argument) -/
+def armFacts (fn arm : String) : Option (Bool × Bool) :=
+  match containerArms.find? (fun e => e.1 == fn && e.2.1 == arm) with
+  | some e => some e.2.2
+  | none => none
+
+/-- the arm is classified by the source exactly as the `Kind.inPlace` table says: an in-place kind
+writes into its argument and builds nothing, a copying kind builds a container and does not write
+into its argument -/
+def Kind.armAgrees (k : Kind) (fa : String × String) : Bool :=
+  match armFacts fa.1 fa.2 with
+  | some (builds, writes) => builds == !k.inPlace && writes == k.inPlace
+  | none => false
 
 /-- a nil slice / nil map comes back as a new empty container (`make(gen.Array, len(tv))`,
 `gen.Object{}`, `make([]any, len(tv))`, `map[string]any{}`); the other conversions hand nil on
